@@ -266,4 +266,30 @@ CHECKS = {
   "technique": "Coq proofs (mask/pick lemmas, field over Q) + vm_compute "
                "correspondence + brute-force window selection",
  },
+ "C17": {
+  "text": "Theorems (all matrices, all picks, all distance matrices and "
+          "tolerances): swapping the end points of two entries keeps every "
+          "row sum and every column sum and touches only four cells; hence "
+          "one attempt of the cross-link rewiring kernel either retries or "
+          "keeps the cross degree of every node of both groups, and one "
+          "attempt of the geographical rewiring kernels (models I-III) keeps "
+          "the network undirected, loop-free and every degree (so the link "
+          "count). The kernels are modelled step by step as functions of the "
+          "random picks and compared with the implementation run on the SAME "
+          "picks (numpy.random replaced by a recorded stream) inside Coq. "
+          "With the library's own random numbers: degrees, cross degrees, "
+          "internal blocks, link-length drift, degree pairs (model III), "
+          "prescribed link counts (cross-link setting, Barabasi-Albert, "
+          "Erdos-Renyi), degree bounds (Configuration), simplicity.",
+  "design_ref": "DESIGN.md section 5, C17",
+  "note": "trusted: that the picked edge-list entries are links of the "
+          "current matrix is a hypothesis of the step theorems (maintained by "
+          "the kernels' edge-list bookkeeping; validated by the same-picks "
+          "correspondence); igraph generators / rewire; kernels that never "
+          "return because no admissible move exists are run in a forked "
+          "child and counted as 'operation not defined'",
+  "technique": "Coq proofs (counting via integer sums, case analysis) + "
+               "same-random-stream correspondence + invariant checks over "
+               "seeds",
+ },
 }
